@@ -378,6 +378,71 @@ func genBlockwiseXfer(g *gen, repo string) {
 		}
 	}
 
+	// the glue: every connection gets its own block-wise layer (tokens, the keys of its caches, are scoped to a connection):
+	// `createBlockWise = func(cc …) … { return blockwise.New(…) }` in the servers' and clients' set-up code
+	for _, rel := range []string{"tcp/server/server.go", "udp/server/server.go", "dtls/server/server.go", "udp/client.go", "dtls/client.go", "tcp/client.go"} {
+		_, gf := parseFile(repo, rel)
+		perConn := 0
+		ast.Inspect(gf, func(n ast.Node) bool {
+			var lit *ast.FuncLit
+			switch x := n.(type) {
+			case *ast.AssignStmt:
+				if len(x.Lhs) == 1 && len(x.Rhs) == 1 && c04Str(x.Lhs[0]) == "createBlockWise" && x.Tok == token.ASSIGN {
+					l, ok := x.Rhs[0].(*ast.FuncLit)
+					if !ok {
+						fail("%s: createBlockWise is assigned something that is not a function literal creating a new layer (`%s`)", rel, c04Str(x.Rhs[0]))
+					}
+					lit = l
+				}
+			case *ast.FuncDecl:
+				if x.Name.Name == "createBlockWiseFactory" { // tcp/client.go: returns the literal
+					for _, st := range x.Body.List {
+						if r, ok := st.(*ast.ReturnStmt); ok && len(r.Results) == 1 {
+							if l, ok := r.Results[0].(*ast.FuncLit); ok {
+								lit = l
+							}
+						}
+					}
+				}
+			}
+			if lit == nil {
+				return true
+			}
+			news := 0
+			ast.Inspect(lit.Body, func(m ast.Node) bool {
+				if r, ok := m.(*ast.ReturnStmt); ok && len(r.Results) == 1 {
+					if c, ok := r.Results[0].(*ast.CallExpr); ok && c04Str(c.Fun) == "blockwise.New" {
+						news++
+					}
+				}
+				return true
+			})
+			if news == 1 {
+				perConn++
+			}
+			return true
+		})
+		if perConn != 1 {
+			fail("%s: expected exactly one `createBlockWise = func(cc) { return blockwise.New(…) }` (a layer per connection), found %d", rel, perConn)
+		}
+	}
+	// udp/server Session.Run reads datagrams into a buffer of a whole MTU (a longer datagram than the maximum message
+	// size arrives with its real length and is refused by Conn.Process, it is not cut to the limit by the socket)
+	{
+		_, sf := parseFile(repo, "udp/server/session.go")
+		run := funcDecl(sf, "Session", "Run")
+		ok := false
+		ast.Inspect(run.Body, func(n ast.Node) bool {
+			if a, is := n.(*ast.AssignStmt); is && len(a.Rhs) == 1 && c04Str(a.Rhs[0]) == "make([]byte,s.mtu)" {
+				ok = true
+			}
+			return true
+		})
+		if !ok {
+			fail("udp/server Session.Run: the read buffer is not `make([]byte, s.mtu)`")
+		}
+	}
+
 	// Handle: `if !more && sendingMessageCode > codes.DELETE { b.sendingMessagesCache.Delete(tokenStr) }`
 	h := funcDecl(f, "BlockWise", "Handle")
 	delAfterLast := false
@@ -443,6 +508,8 @@ func genBlockwiseXfer(g *gen, repo string) {
 	fmt.Fprintf(&b, "/-- processReceivedMessage: the response of a POST/PUT is never re-requested from block 0 (the request would go out without its body) -/\ndef refusesBodylessRestart : Bool := %s\n", c04Bool(refusesBodylessRestart))
 	fmt.Fprintf(&b, "/-- processReceivedMessage: a block at offset 0 (re)starts the transfer: held bytes dropped, options and code taken from the block -/\ndef block0Restarts : Bool := %s\n", c04Bool(block0Restarts))
 	fmt.Fprintf(&b, "/-- processReceivedMessage / getCachedReceivedMessage: the per-entry guard is acquired before the cached message is touched and released only by the deferred close function, after `next(w, cachedReceivedMessage)` has returned (no earlier release, no go statement) -/\ndef guardReleasedOnlyAfterNext : Bool := true\n")
+	fmt.Fprintf(&b, "/-- tcp/udp/dtls servers and clients: `createBlockWise` is a function literal that returns `blockwise.New(…)`, i.e. every connection gets its own layer (its own pair of caches) -/\ndef layerPerConnection : Bool := true\n")
+	fmt.Fprintf(&b, "/-- udp/server Session.Run reads into `make([]byte, s.mtu)`: a datagram longer than the maximum message size keeps its length and is refused, not cut -/\ndef datagramReadBufferIsMTU : Bool := true\n")
 	fmt.Fprintf(&b, "/-- getPayloadFromCachedReceivedMessage: on an ETag change the cached message takes over all options and the code of the new block (false: only the ETag) -/\ndef restartTakesNewOptions : Bool := %s\n", c04Bool(restartTakesOptions))
 	fmt.Fprintf(&b, "/-- udp/client: DefaultConfig BlockwiseTransferTimeout (ns), BlockwiseSZX, MaxMessageSize -/\ndef defaultTransferTimeoutNs : Nat := %d\ndef defaultSZX : Nat := %d\ndef defaultMaxMessageSize : Nat := %d\n",
 		int64(udpclient.DefaultConfig.BlockwiseTransferTimeout), uint64(udpclient.DefaultConfig.BlockwiseSZX), uint64(udpclient.DefaultConfig.MaxMessageSize))
